@@ -19,6 +19,7 @@ pub mod c14;
 pub mod c18;
 #[cfg(feature = "bulk")]
 pub mod c19;
+pub mod serialchk;
 
 #[derive(Clone, Debug)]
 pub struct Ctx {
@@ -59,7 +60,8 @@ impl Ctx {
 
 pub fn dispatch(name: &str, ctx: &Ctx) -> Option<Outcome> {
     Some(match name {
-        "c01" => c01::run(ctx),
+        "c01" => if ctx.args.str("part", "freerun") == "serial" { serialchk::run(ctx, "c01") } else { c01::run(ctx) },
+        "c11" => serialchk::run(ctx, "c11"),
         "c02" => c02::run(ctx),
         "c03" => c03::run(ctx),
         "c04" => c04::run(ctx),
